@@ -22,3 +22,37 @@ package task
 //@ lemma SX_missing_is_partial C11: forall a Status, b Status ::
 //@     (a == INACTIVE || a == PARTIAL || a == ACTIVE) && (b == INACTIVE || b == PARTIAL || b == ACTIVE) && a != b ==> a.X(b) == PARTIAL
 //@ lemma SX_closed C11: forall a Status, b Status :: validStatus(a.X(b))
+
+// ---------------------------------------------------------------------------------------------------------
+// C02: a transition fails iff a CRITICAL task failed. In the per-target error loop of a multi-target response an error
+// is counted as critical only if the task's own traits or its role's task traits say critical; the function returns an
+// error exactly when that count is non-zero.
+//@ func (m *Manager) transitionTasks(envId uid.ID, tasks Tasks, src string, event string, dest string, commonArgs controlcommands.PropertyMap) (err error)
+//@   property C02
+//@   ghostvar multi bool = false
+//@   ghostvar nCrit int = 0
+//@   ghostvar lastCrit bool = false
+//@   ghostvar lastParentCrit bool = false
+//@   on aftercall .IsMultiResponse : multi = result
+//@   on call (*Manager).GetTask : lastCrit = false ; lastParentCrit = false
+//@   on aftercall (*Task).GetTraits : lastCrit = result.Critical
+//@   on aftercall .GetTaskTraits : lastParentCrit = result.Critical
+//@   on call append when argname0 == "taskCriticalErrors" : assert lastCrit || lastParentCrit ; nCrit = nCrit + 1
+//@   on call append when argname0 == "taskNonCriticalErrors" : assert !lastCrit && !lastParentCrit
+//@   loop 3 invariant len(taskCriticalErrors) == nCrit && nCrit >= 0
+//@   ensures multi ==> (err != nil <==> nCrit > 0)
+
+//@ func (m *Manager) configureTasks(envId uid.ID, tasks Tasks) (err error)
+//@   property C02
+//@   ghostvar multi bool = false
+//@   ghostvar nCrit int = 0
+//@   ghostvar lastCrit bool = false
+//@   ghostvar lastParentCrit bool = false
+//@   on aftercall .IsMultiResponse : multi = result
+//@   on call (*Manager).GetTask : lastCrit = false ; lastParentCrit = false
+//@   on aftercall (*Task).GetTraits : lastCrit = result.Critical
+//@   on aftercall .GetTaskTraits : lastParentCrit = result.Critical
+//@   on call append when argname0 == "taskCriticalErrors" : assert lastCrit || lastParentCrit ; nCrit = nCrit + 1
+//@   on call append when argname0 == "taskNonCriticalErrors" : assert !lastCrit && !lastParentCrit
+//@   loop 3 invariant len(taskCriticalErrors) == nCrit && nCrit >= 0
+//@   ensures multi ==> (err != nil <==> nCrit > 0)
